@@ -35,6 +35,10 @@ try:
     from tools import vlib
 except ImportError:  # pragma: no cover
     import vlib
+try:
+    from tools import vque
+except ImportError:  # pragma: no cover
+    import vque
 
 H = vlib.VERIF / "harness" / "C05"
 CORPUS = vlib.VERIF / "corpus" / "C05"
@@ -73,9 +77,26 @@ META = {
             "the visited node), the *_entry macros, and an allocation ledger (live blocks = num_+cur_, pool arrays, the "
             "a_que_new structure released by a_que_die); containers are built through every construction entry point "
             "(a_list_ctor/init/dtor/A_LIST_INIT, a_slist_ctor/init/dtor/A_SLIST_INIT, a_que_ctor/dtor and a_que_new/die), "
-            "every second queue operation goes through its alias macro.",
+            "every second queue operation goes through its alias macro. "
+            "Translator ties, re-proved on every run against code regenerated from the current sources: (1) all 21 a_list_* and 11 "
+            "a_slist_* functions as checked heap programs (tools/c2heap.py), proved EQUAL to the models for every heap and address "
+            "(harness/C05/TieList.v); (2) 24 functions of que.c / que.h (tools/c2que.py: a_que_siz, num, ctor, new_, die_, fore_, back_, "
+            "fore, back, at, push_fore, push_back, pull_fore, pull_back, insert, remove, swap_, sort_fore, sort_back, push_sort, drop, "
+            "move_, swap, setz) over a CONCRETE queue state - the recycle pool as an array of cells with fill count cur_ and capacity "
+            "mem_, grown by a_alloc - proved to SIMULATE the model QueDefs.v, whose pool is a list (harness/C05/TieQueR.v, TieQue.v, "
+            "TieQue3.v): under the abstraction relation R (pool list = the first cur_ cells of the array, top first; cur_ <= mem_ = array "
+            "length; same siz/num/mem, heap, payloads, fresh counter != 0, schedule, trace) the generated function and the model function "
+            "either both succeed with R-related worlds and equal results, or both fault, or both run out of fuel - for all R-related "
+            "states (no ring invariant assumed, null and dangling addresses included), all arguments, comparison callbacks and allocator "
+            "schedules; tie_a_que_insert and tie_a_que_setz additionally assume the proved queue invariant QInv of the model state.",
     "note": "Trusted: Coq kernel; extraction (ExtrOcamlBasic only) and the two hand-written drivers; the hand-written models "
-            "coq/C05/*Defs.v are tied to the C by differential testing only, not by a verified translation; C semantics and "
+            "coq/C05/*Defs.v are tied to the C by differential testing and by the translators c2heap / c2que, which are trusted to read "
+            "the C right (not verified translations; their output is not trusted about the model: every generated function is proved "
+            "equal to / to simulate the model on every run); in the queue translator a_size / a_diff arithmetic is unbounded as in "
+            "the model, `node + 1` (element pointer) is named by the node address, list primitives called by que.c are the model "
+            "functions TieList.v ties them to, a_alloc is the model's request oracle, dtor is NULL; a_que_dtor (frees the pool bottom "
+            "first, the model top first: equal heaps only up to map extensionality), a_que_new/a_que_die and the iteration macros stay "
+            "with the correspondence run only; C semantics and "
             "compiler. Modelled, not verified: a_alloc as an oracle consuming one boolean per request (addresses are never "
             "reused in the model, the C driver names blocks in allocation order); num_/mem_/cur_ as unbounded naturals "
             "(cannot wrap: >= 17 bytes of address space per element); element payload = one integer per node; the "
@@ -86,7 +107,8 @@ META = {
             "specifications in Python. No axioms.",
     "technique": "Rocq proof (separation-style ring/chain invariants, refinement to abstract sequences by induction over "
                  "histories and fault schedules) + all 32 a_list_* / a_slist_* functions regenerated from the headers as checked heap "
-                 "programs by a translator and proved equal to the model on every run + extracted-model vs C correspondence under ASan/UBSan",
+                 "programs by a translator and proved equal to the model on every run + 24 functions of que.c/que.h regenerated over a "
+                 "concrete pool array and proved to simulate the model under an abstraction relation on every run + extracted-model vs C correspondence under ASan/UBSan",
     "category": "proof",
 }
 
@@ -1366,6 +1388,10 @@ def run(ctx):
          (SLIST_FUNCS, {"heap": "w", "heap_type": "sworld", "fields": {"next": ["s_rd", "s_wr"], "tail": ["t_rd", "t_wr"]},
                         "embedded": ["head"]})],
         "GenList", GEN_HEADER, H / "TieList.v")
+    # third tie (translator): the queue functions of que.c / que.h are REGENERATED over a concrete queue state (pool array, fill
+    # count, capacity) and proved to simulate the hand model QueDefs.v under the abstraction relation R (tools/vque.py,
+    # harness/C05/TieQue*.v); it runs next to the correspondence below and is joined before the failures are reported
+    que_tie = vque.que_translate_and_tie(ctx, background=True)
     cbin, mbin = build(ctx)
     quick = ctx.quick
     stats = {"oracle_all": True}
@@ -1448,6 +1474,8 @@ def run(ctx):
             ctx.notes.append("time budget reached after seed %d" % sd)
             break
 
+    if hasattr(que_tie, "result"):
+        que_tie.result()
     # ---- failures: shrink and report (one per key)
     seen_keys = set()
     for h, idx, msg, c_l, m_l, fn, abstract, label in fails:
